@@ -83,9 +83,16 @@ static struct reb_treecell *reb_tree_add_particle_to_cell(struct reb_simulation*
 		struct reb_particle p = particles[pt];
 		if (parent == NULL){ // The new node is a root
 			node->w = r->root_size;
-			int i = ((int)floor((p.x + r->boxsize.x/2.)/r->root_size))%r->N_root_x;
-			int j = ((int)floor((p.y + r->boxsize.y/2.)/r->root_size))%r->N_root_y;
-			int k = ((int)floor((p.z + r->boxsize.z/2.)/r->root_size))%r->N_root_z;
+			int i = (int)floor((p.x + r->boxsize.x/2.)/r->root_size);
+			int j = (int)floor((p.y + r->boxsize.y/2.)/r->root_size);
+			int k = (int)floor((p.z + r->boxsize.z/2.)/r->root_size);
+			// Same convention as reb_get_rootbox_for_particle(): the upper face belongs to the last root box.
+			if (i==r->N_root_x) i--;
+			if (j==r->N_root_y) j--;
+			if (k==r->N_root_z) k--;
+			i %= r->N_root_x;
+			j %= r->N_root_y;
+			k %= r->N_root_z;
 			node->x = -r->boxsize.x/2.+r->root_size*(0.5+(double)i);
 			node->y = -r->boxsize.y/2.+r->root_size*(0.5+(double)j);
 			node->z = -r->boxsize.z/2.+r->root_size*(0.5+(double)k);
